@@ -437,9 +437,10 @@ func checkC09(c *core.Ctx) {
 		c.Set("two_match_histories", st2.Executions)
 	}
 	{
-		sizes := []int{7, 8, 9, 13, 16, 17, 33}
+		// around the word sizes too (a bit set of covered cases: 8, 16, 32, 64)
+		sizes := []int{7, 8, 9, 13, 16, 17, 33, 64, 65, 66}
 		if c.Thorough() {
-			sizes = []int{6, 7, 8, 9, 13, 15, 16, 17, 26, 27, 31, 32, 33, 63, 64, 65, 130}
+			sizes = []int{6, 7, 8, 9, 13, 15, 16, 17, 26, 27, 31, 32, 33, 63, 64, 65, 66, 127, 128, 129, 130, 257}
 		}
 		ld := c09LargeDriver(sizes, c.Thorough())
 		var cur3 *c09Case
